@@ -172,7 +172,7 @@ def run(case, ctx):
             if must_succeed:
                 return result(False, "sortable-stream-not-sorted", None,
                               "every region is within the look-back window (n=%r) but ovnisort ended with %s%s" % (n, status, tail), **info)
-            if "ERROR" not in etxt and "cannot" not in etxt:
+            if not etxt.strip():
                 return result(False, "silent-failure", None, "ovnisort ended with %s without saying why%s" % (status, tail), **info)
             info["probes"]["ovnisort refused (look-back too short)"] = 1
             return result(True, **info)
